@@ -96,6 +96,7 @@ Module QErr.
   Definition fxt_accounts_differ : N := 2500.
   Definition fxt_both_positive : N := 2600.
   Definition fxt_both_negative : N := 2700.
+  Definition fxt_zero_amount : N := 2650.
   Definition fx_currency_unsupported : N := 2800.
   Definition unpaired_fxt : N := 2900.
   Definition no_column (col : N) : N := 100 + col.
@@ -150,6 +151,8 @@ Section Tracker.
           if Qcltb 0 prod then
             Ok (None, [], Some (if Qcltb 0 (fr_amount cad) then QErr.fxt_both_positive
                                 else QErr.fxt_both_negative))
+          else if Qceqb (fr_amount other) 0 then
+            Ok (None, [], Some QErr.fxt_zero_amount)
           else
             q <- a_div A (fr_amount cad) (fr_amount other) ;;
             match fx_tx (fr_cur other) (fr_td other) (fr_tdt other) (fr_amount other)
